@@ -8,7 +8,7 @@ from harness import core, py2lean, instantiate
 from harness.core import Outcome, f2b, b2f
 
 ID = "C02"
-LEAN_TARGETS = ["BeyondVerif.Props.C02", "BeyondVerif.Witness.C02"]
+LEAN_TARGETS = ["BeyondVerif.Props.C02", "BeyondVerif.Props.C02Centre", "BeyondVerif.Props.C02Kin", "BeyondVerif.Witness.C02"]
 THEOREMS = [
     "BeyondVerif.C02.rot1_isRotation",
     "BeyondVerif.C02.rot2_isRotation",
@@ -37,6 +37,39 @@ THEOREMS = [
     "BeyondVerif.C02.orientConvert_compose",
     "BeyondVerif.C02.orientConvert_inverse",
     "BeyondVerif.C02.transform_roundtrip_same_centre",
+    "BeyondVerif.R.edgeBuiltin_oneDir",
+    "BeyondVerif.R.edgesOK_edge",
+    "BeyondVerif.C02.builtin_edges_invertible",
+    "BeyondVerif.C02.edgesOK_model",
+    "BeyondVerif.C02.orientConvert_compose_model",
+    "BeyondVerif.C02.orientConvert_inverse_model",
+    "BeyondVerif.C02.lof_isRotation",
+    "BeyondVerif.R.centreFold_chain",
+    "BeyondVerif.R.centerConvert_retarget",
+    "BeyondVerif.C02.offset_chain",
+    "BeyondVerif.C02.offset_antisymm",
+    "BeyondVerif.C02.offset_retarget",
+    "BeyondVerif.C02.transform_roundtrip",
+    "BeyondVerif.C02.transform_compose",
+    "BeyondVerif.C02.transform_roundtrip_model",
+    "BeyondVerif.C02.transform_compose_model",
+    "BeyondVerif.C02.transform_calls_pinned",
+    "BeyondVerif.C02.velocity_is_derivative_general",
+    "BeyondVerif.C02.angular_velocity_exists",
+    "BeyondVerif.C02.earth_rotation_edges_kinematic",
+    "BeyondVerif.C02.earth_rate_consistent",
+    "BeyondVerif.C02.era_rate_consistent",
+    "BeyondVerif.C02.rate_mismatch_defect",
+    "BeyondVerif.R.RotPath.mul",
+    "BeyondVerif.C02.slow_edge_omitted",
+    "BeyondVerif.C02.precession_rotPath",
+    "BeyondVerif.C02.precession_omitted_bound",
+    "BeyondVerif.R.lofQsw_derivAt",
+    "BeyondVerif.R.lofTnw_derivAt",
+    "BeyondVerif.C02.lof_velocity_defect",
+    "BeyondVerif.C02.lof_velocity_iff",
+    "BeyondVerif.C02.lof_rate_planar",
+    "BeyondVerif.C02.lof_rate_twobody",
     "BeyondVerif.C02.velocity_is_derivative",
     "BeyondVerif.C02.earth_rotation_rate",
     "BeyondVerif.Memo.run_eq_map",
@@ -551,6 +584,7 @@ def make_orbit(kepl, date, frame="EME2000"):
 
 
 _pool = []
+_pool_last = []
 
 
 def attached_frames(rng, date):
@@ -566,6 +600,7 @@ def attached_frames(rng, date):
                 out[name] = orbit2frame(name, ref, orientation=ori, parent=EME2000, exists_warning=False)
             _pool.append((out, ref))
     out, ref = rng.choice(_pool)
+    _pool_last[:] = [ref]
     return out, ref.propagate(date)
 
 
@@ -1180,9 +1215,33 @@ def oracle(ctx, widened):
                 # jd is one double (4e-5 s): Earth-fixed positions jitter by ~7.3e-5 rad/s * 2e-5 s * r; the slow precession/nutation rates are omitted by design (5e-5 m/s)
                 tol = 2e-3 * rmax / 7e6 + 2e-4
                 out.count(key=("vel", mode, b, str(date)), kind="velocity-derivative", eop=mode, target=fam.split(":")[1])
+                inp = {"eop": mode, "date": str(date), "frame": b, "kepl": list(map(float, kepl)), "ref_kepl": list(map(float, ref.copy(form="keplerian")))}
+                if b in att and not b.endswith("inert"):
+                    # orbit-attached QSW / TNW frame: the code hands no rate to expand (open findings C02-lof-no-rate-*).  The theorem
+                    # C02.lof_velocity_defect says what exactly is missing: d/dt(converted position) = converted velocity - w x rho with
+                    # w = lofRate (two-body reference, C02.lof_rate_twobody: h/r^2 about W for QSW, mu h/(r^3 v^2) about W for TNW).
+                    # The observed discrepancy must be that term and nothing else.
+                    pr, vr = np.array(ref)[:3], np.array(ref)[3:]
+                    hvec = np.cross(pr, vr)
+                    hn, rn, vn = np.linalg.norm(hvec), np.linalg.norm(pr), np.linalg.norm(vr)
+                    if b.endswith("QSW"):
+                        w3 = hn / rn ** 2
+                    else:
+                        # TNW: a . (c x v) / (h v^2) with a the acceleration of the reference, MEASURED on its own arc (whatever value of
+                        # mu the propagator uses; for two-body motion this is mu h / (r^3 v^2))
+                        va = {h_: np.array(_pool_last[0].propagate(date + timedelta(seconds=h_)))[3:] for h_ in (-2.0, -1.0, 1.0, 2.0)}
+                        acc = (4 * (va[1.0] - va[-1.0]) / 2.0 - (va[2.0] - va[-2.0]) / 4.0) / 3
+                        w3 = acc @ np.cross(hvec, vr) / (hn * vn ** 2)
+                    rho = np.array(sv0.copy(frame=b))[:3]
+                    missing = -np.cross([0.0, 0.0, w3], rho)
+                    out.count(key=("velterm", mode, b, str(date)), kind="velocity-lof-term", eop=mode, target=fam.split(":")[1], separation="far" if np.linalg.norm(rho) > 1e5 else "near")
+                    if not np.all(np.abs(fd - vel - missing) <= tol + 1e-9 * np.linalg.norm(rho)):
+                        out.fail(fam.replace("velocity-derivative", "velocity-lof-term"), "in an orbit-attached local orbital frame the converted velocity differs from the derivative of the converted position "
+                                 "by something else than the rotation term -w x rho of the frame (w = h/r^2 for QSW, mu h/(r^3 v^2) for TNW, along W): theorem C02.lof_velocity_defect",
+                                 dict(inp, rho=list(map(float, rho)), w_lof=[0.0, 0.0, float(w3)]), observed=list(map(float, fd - vel)), expected=list(map(float, missing)))
+                        continue
                 if not np.all(np.abs(fd - vel) <= tol):
-                    out.fail(fam, "converted velocity is not the time derivative of the converted position",
-                             {"eop": mode, "date": str(date), "frame": b, "kepl": list(map(float, kepl)), "ref_kepl": list(map(float, ref.copy(form="keplerian")))},
+                    out.fail(fam, "converted velocity is not the time derivative of the converted position", inp,
                              observed=list(map(float, vel)), expected=list(map(float, fd)))
             # ---- 4. Earth rotation angle / sidereal time / polar motion / nutation / precession / rate against independent formulas
             #         evaluated with the EOP record of the current configuration (known independently of the library); 1980 vs 2010
@@ -1395,7 +1454,7 @@ class Visit:
     internals before them — then what the model is given is collected: the date arguments as a pure function of the TEXT of the
     date and the independently known EOP record of the current configuration (`pure_times`), the frame specification at the date."""
 
-    def __init__(self, out, rng, sc, mode, scale, d, s, s_utc, date, nconv, nxf, kind, orient_only=None, twice=False):
+    def __init__(self, out, rng, sc, mode, scale, d, s, s_utc, date, nconv, nxf, kind, orient_only=None, twice=False, ncen=0):
         import numpy as np
         from beyond.frames import iau1980, iau2010
         from beyond.frames.frames import get_frame
@@ -1453,6 +1512,19 @@ class Visit:
                 res = f"raised {type(e).__name__}: {e}"
             self.xf.append((fa, fb, np.array(sa), res))
             out.count(key=("xf", mode, self.text, fa[0], fb[0], kind), nontrivial=fa[0] != fb[0], kind="frame-transform", pair=f"{fa[3] if fa[2] or fa[1] >= 10 else 'builtin'}>{fb[3] if fb[2] or fb[1] >= 10 else 'builtin'}", **tag)
+        # Center.convert_to alone: centre a -> centre b expressed in the orientation of a third frame; then the reverse request and the same
+        # request towards another orientation (a history on the same centre objects), each compared with the model
+        self.cen = []
+        for _ in range(ncen):
+            fa, fb, ft = rng.choice(sc.frames), rng.choice(sc.frames), rng.choice(sc.frames)
+            for ga, gb, gt in ((fa, fb, ft), (fb, fa, ft), (fa, fb, rng.choice(sc.frames))):
+                try:
+                    res = np.array(get_frame(ga[0]).center.convert_to(date, get_frame(gb[0]).center, get_frame(gt[0]).orientation), float)
+                except Exception as e:
+                    res = f"raised {type(e).__name__}: {e}"
+                self.cen.append((ga, gb, gt, res))
+                out.count(key=("cen", mode, self.text, ga[0], gb[0], gt[0], kind), nontrivial=ga[2] != gb[2], kind="centre-convert",
+                          pair=f"{ga[3] if ga[2] else 'Earth'}>{gb[3] if gb[2] else 'Earth'}", target=gt[3] if gt[1] >= 10 else "builtin", **tag)
         # ---- what the model is given
         rec = indep_record(mode, d + s_utc / 86400.0)
         self.rec_known = rec is not None
@@ -1546,6 +1618,34 @@ def correspondence(ctx):
             reqs.append(" ".join(["c02lof", str(tnw)] + fl(sv)))
             post.append(("lof", {"tnw": tnw, "sv": sv.tolist()}, local.to_local("TNW" if tnw else "QSW", sv, expanded=False).T.flatten(), 1e-10, 1e-14))
             out.count(key=reqs[-1], kind="lof-" + ("TNW" if tnw else "QSW"))
+        # the rotation rate of the local orbital frames: d/dt of the REAL to_local along a path, by Richardson central differences, against
+        # the model's -[w]x to_local with w = lofRate(p, v, a).  Paths: a synthetic one p + v s + a s^2/2 + j s^3/6 with an acceleration
+        # in a random direction (out of plane: all three components of w) and, every fourth case, the arc of the real Kepler propagator
+        k_ = _counter[0] = _counter[0] + 1
+        for tnw in (0, 1):
+            nm = "TNW" if tnw else "QSW"
+            acc = np.array([rng.gauss(0, 1) for _ in range(3)]) * rng.choice([0.0, 1e-3, 8.0])
+            if rng.random() < 0.3:
+                acc = -3.986e14 * sv[:3] / np.linalg.norm(sv[:3]) ** 3            # two-body
+            jerk = np.array([rng.gauss(0, 1e-2) for _ in range(3)])
+            path = lambda x: np.concatenate([sv[:3] + sv[3:] * x + acc * x * x / 2 + jerk * x ** 3 / 6, sv[3:] + acc * x + jerk * x * x / 2])
+            kind_ = "synthetic"
+            if k_ % 4 == 0:
+                # (the analytical J2 propagator is no candidate: its velocity is not d/dt of its position — secular drift of the elements)
+                from beyond.dates import timedelta
+                orb_ = make_orbit(kep, d0)
+                kind_ = "kepler-arc"
+                path = lambda x, orb_=orb_: np.array(orb_.propagate(d0 + timedelta(seconds=x)).copy(form="cartesian", frame="EME2000"))
+                hh_ = 2.0
+                acc = (4 * (path(hh_)[3:] - path(-hh_)[3:]) / (2 * hh_) - (path(2 * hh_)[3:] - path(-2 * hh_)[3:]) / (4 * hh_)) / 3
+            else:
+                hh_ = 0.5
+            P = lambda x: local.to_local(nm, path(x), expanded=False)
+            Pd = (4 * (P(hh_) - P(-hh_)) / (2 * hh_) - (P(2 * hh_) - P(-2 * hh_)) / (4 * hh_)) / 3
+            s0 = path(0.0)
+            reqs.append(" ".join(["c02lofrate", str(tnw)] + fl(s0) + fl(acc)))
+            post.append(("lofrate", {"tnw": tnw, "sv": s0.tolist(), "acc": acc.tolist(), "path": kind_}, ("rate", Pd.flatten()), 1e-6, 2e-9 if kind_ == "synthetic" else 2e-8))
+            out.count(key=reqs[-1], kind="lof-rate-" + nm, path=kind_, acceleration="two-body" if abs(acc @ np.cross(s0[:3], s0[3:])) < 1e-3 else "out-of-plane")
         lat, lon, alt = rng.uniform(-1.57, 1.57), rng.uniform(-3.14, 3.14), rng.uniform(-100, 5000)
         from beyond.utils.matrix import rot2, rot3
         reqs.append(" ".join(["c02topo"] + fl([lat, lon])))
@@ -1562,7 +1662,7 @@ def correspondence(ctx):
         set_eop(mode)
         for _ in range(ctx.n(14, 600) if mode == "real" else ctx.n(5, 150) if mode in ("zero", "missing") else ctx.n(3, 80)):
             d, s = rand_ds(rng) if rng.random() < 0.9 or mode in ("altdb", "patched") else rand_ds(rng, 57800, 58800)
-            visits.append(Visit(out, rng, rng.choice(scs), mode, "UTC", d, s, s, Date(d, s), 4, 6, "fresh"))
+            visits.append(Visit(out, rng, rng.choice(scs), mode, "UTC", d, s, s, Date(d, s), 4, 6, "fresh", ncen=2))
     # A2. the SAME instants under all five configurations in one process, varying orders, repeated requests: UTC texts (TAI-UTC, hence the
     # TT instant of the text, differs under 'missing') and TAI texts.  The model is asked call by call, statelessly: by the theorem
     # session_history_independent the history does not matter.
@@ -1573,7 +1673,7 @@ def correspondence(ctx):
             for i, d, s, s_utc in sub:
                 date = held[(mode, i)] if (mode, i) in held and rng.random() < 0.3 else Date(d, s, scale=scale)
                 held[(mode, i)] = date
-                visits.append(Visit(out, rng, rng.choice(scs), mode, scale, d, s, s_utc, date, 3, 3, "shared-" + scale))
+                visits.append(Visit(out, rng, rng.choice(scs), mode, scale, d, s, s_utc, date, 3, 3, "shared-" + scale, ncen=1))
     # A3. a history of Orientation.convert_to calls as ONE request to the model with the _nutation_series memo inside (sessionRun, c02seq):
     # UTC texts shared by configurations that disagree on TAI-UTC (before deb035a the code was history dependent here, ~2e-10 rad).
     # Orientation level, built-ins + station.
@@ -1595,7 +1695,7 @@ def correspondence(ctx):
         for mode in order[:ctx.n(3, 4)]:
             set_eop(mode)
             for d, s_ in rng.sample(rinst, ctx.n(2, 4)):
-                visits.append(Visit(out, rng, rsc, mode, "UTC", d, s_, s_, Date(d, s_), 0, ctx.n(8, 10), "attached-to-reference", twice=True))
+                visits.append(Visit(out, rng, rsc, mode, "UTC", d, s_, s_, Date(d, s_), 0, ctx.n(8, 10), "attached-to-reference", twice=True, ncen=2))
     # A4. the same NAMES registered again with another specification (other station coordinates, reference orbits, offsets), then the
     # same instants under the same configurations as before: a conversion follows what the name means NOW
     old = scs[0]
@@ -1604,7 +1704,7 @@ def correspondence(ctx):
     _scenarios[0] = Scenario(rng, idx, old.tag)
     for v in again[:ctx.n(6, 40)]:
         set_eop(v.mode)
-        visits.append(Visit(out, rng, _scenarios[0], v.mode, v.scale, v.d, v.s, v.s_utc, Date(v.d, v.s, scale=v.scale), 3, 4, "re-registered"))
+        visits.append(Visit(out, rng, _scenarios[0], v.mode, v.scale, v.d, v.s, v.s_utc, Date(v.d, v.s, scale=v.scale), 3, 4, "re-registered", ncen=1))
     set_eop("real")
     # ---- phase B: the series of the model at every TT century in play (one batched request per table)
     ttts = sorted({v.t["ttt"] for v in visits + seq} | {rsc.epoch_t["ttt"]})
@@ -1652,6 +1752,14 @@ def correspondence(ctx):
         for fa, fb, res in v.conv:
             reqs.append(" ".join(["c02conv"] + D + htoks + etoks + [str(fa[1]), str(fb[1])]))
             post.append(("convert", {"eop": v.mode, "date": v.text, "history": v.kind, "a": fa[0], "b": fb[0], "record": v.rec}, res, 1e-10, 1e-13))
+        for ga, gb, gt, res in v.cen:
+            reqs.append(" ".join(["c02cen"] + D + htoks + etoks + ctoks + [str(ga[2]), str(gb[2]), str(gt[1])]))
+            inp = {"eop": v.mode, "date": v.text, "history": v.kind, "from_centre_of": ga[0], "to_centre_of": gb[0], "in_orientation_of": gt[0], "record": v.rec}
+            if isinstance(res, str):
+                post.append(("centre", inp, res, 0, 0))
+            else:
+                scale_p = max(np.abs(res[:3]).max(), 7e6)
+                post.append(("centre", inp, res, 1e-10, ("pv", 1e-9 * scale_p, 1e-9 * scale_p * 1e-3)))
         for fa, fb, sa, res in v.xf:
             reqs.append(" ".join(["c02xf"] + D + htoks + etoks + ctoks + [str(fa[1]), str(fa[2]), str(fb[1]), str(fb[2])] + fl(sa)))
             inp = {"eop": v.mode, "date": v.text, "history": v.kind, "from": fa[0], "to": fb[0], "state": list(map(float, sa)), "record": v.rec}
@@ -1691,6 +1799,12 @@ def correspondence(ctx):
                     continue
                 cmp_floats(out, "model-sequence", "Orientation.convert_to inside a history of calls (model: sessionRun with the _nutation_series memo)", cinp, res, " ".join(one), rtol=rtol, atol=atol)
             continue
+        if isinstance(real, tuple) and real[0] == "rate":
+            vals = [b2f(t) for t in rep.split()] if rep and rep[0].isdigit() else []
+            if len(vals) != 12 or not all(core.close(float(a), b, rtol=rtol, atol=atol) for a, b in zip(real[1], vals[3:])):
+                out.fail("model-lofrate", "d/dt of to_local along the path (finite differences on the real code) differs from the model's -[w]x to_local, w = lofRate(p, v, a)",
+                         inp, observed=[float(x) for x in real[1]], expected=vals[3:] or rep)
+            continue
         if isinstance(real, str):
             # the implementation raised where the model (the specification of the frame graph) yields a value
             if rep and rep[0].isdigit():
@@ -1704,7 +1818,7 @@ def correspondence(ctx):
             model = [b2f(t) for t in rep.split()]
             ok = all(abs(a - b) <= atol[1] for a, b in zip(real[:3], model[:3])) and all(abs(a - b) <= atol[2] for a, b in zip(real[3:], model[3:]))
             if not ok:
-                out.fail("model-" + kind, "Frame.transform differs between the implementation and the Lean model", inp, observed=[float(x) for x in real], expected=model)
+                out.fail("model-" + kind, ("Center.convert_to" if kind == "centre" else "Frame.transform") + " differs between the implementation and the Lean model", inp, observed=[float(x) for x in real], expected=model)
         else:
             model = cmp_floats(out, "model-" + kind, kind, inp, real, rep, rtol=rtol, atol=atol)
         out.sample({"request": req[:100] + "…", "impl": [float(x) for x in real][:6], "model": (model or [])[:6]}, limit=3)
